@@ -64,6 +64,20 @@ def gen_cases(rng, tier):
                  rng.pick(['1.5', '2', '0.25'])] for _ in range(rng.randint(1, 8))]
         cases.append({'kind': 'cast_schema', 'rows': rows, 'policy': rng.pick(['raise', 'drop', 'ignore', 'clear'])})
     cases += gen_select_cases(rng, max(16, n // 4))
+    for i in range(max(16, n // 3)):
+        # schema casting with the schema inferred from the file itself (all rows are inside the inference sample): no row
+        # can be offending, text cells keep their text (stripped when asked), whatever the padding of the cells
+        pools = [['', ' a ', 'b', ' c', 'd ', '\tz'], ['1', ' 2', '3 ', '', '  ', '40'], ['2020-01-03', ' 2020-01-04', '2020-02-01 ', ''],
+                 ['true', ' false', 'true ', ''], ['1.5', ' 2.25', '', '  ']]
+        cols = rng.sample(range(len(pools)), rng.randint(1, 3))
+        hs = ['c%d' % j for j in cols]
+        rows = [[rng.pick(pools[j]) for j in cols] for _ in range(rng.randint(1, 7))]
+        if rng.chance(0.5):
+            rows[0] = ['' for _ in cols]          # a first data line without values
+        if all(c == '' for r in rows for c in r):
+            rows.append(['x' for _ in cols])
+        cases.append({'kind': 'infer_cast', 'headers': hs, 'rows': rows, 'strip': rng.chance(0.7),
+                      'policy': rng.pick(['raise', 'drop', 'ignore', 'clear'])})
     for i in range(max(12, n // 4)):
         # extract_missing_values: the sentinel cells are reported in an object field and read as null
         ncols = rng.randint(1, 3)
@@ -163,6 +177,15 @@ def run_impl(case):
             return {'records': [list(r) for r in csv.reader(io.StringIO(case['text'], newline=''))]}
         except csv.Error as e:
             return {'error': 4, 'exc': str(e)}
+    if k == 'infer_cast':
+        text = write_csv_file(case['headers'], case['rows'])
+        path = os.path.join(scratch(), 'i_%s.csv' % digest(case))
+        open(path, 'w', newline='', encoding='utf-8').write(text)
+        pol = {'raise': Load.ERRORS_RAISE, 'drop': Load.ERRORS_DROP, 'ignore': Load.ERRORS_IGNORE, 'clear': Load.ERRORS_CLEAR}[case['policy']]
+        out = run_stream([], [Load(path, name='res', cast_strategy=Load.CAST_WITH_SCHEMA, on_error=pol, strip=case['strip'])])
+        if 'error' in out:
+            return {'error': out['error'], 'exc': out['exc']}
+        return {'rows': rows_enc(out['rows'][0]), 'types': [f['type'] for f in out['dp']['resources'][0]['schema']['fields']]}
     if k == 'missing':
         text = write_csv_file(case['headers'], case['rows'])
         path = os.path.join(scratch(), 'm_%s.csv' % digest(case))
@@ -279,6 +302,26 @@ def oracle(case, out):
             return 'csv writer produced text the reader rejects'
         return None if back == [[str(c) for c in r] for r in case['records']] else None   # reference behaviour; compared with the model only
     if k == 'csv_read':
+        return None
+    if k == 'infer_cast':
+        if 'error' in out:
+            return 'load(cast_strategy=schema, on_error=%s, strip=%s) failed on a well-formed file whose schema it inferred itself: %s' % (
+                case['policy'], case['strip'], out['exc'])
+        got = rows_dec(out['rows'])
+        if len(got) != len(case['rows']):
+            return 'cast_strategy=schema/%s: %d rows from %d data lines although the schema was inferred from these very rows' % (
+                case['policy'], len(got), len(case['rows']))
+        for r, g in zip(case['rows'], got):
+            for h, c, t in zip(case['headers'], r, out['types']):
+                v = g.get(h)
+                if isinstance(v, str):
+                    want = py_strip(c) if case['strip'] else c
+                    if t != 'string' and t != 'any':
+                        return 'cell %r of column %s (inferred %s) was delivered uncast, as text %r' % (c, h, t, v)
+                    if v != want:
+                        return 'text cell %r was delivered as %r (strip=%s)' % (c, v, case['strip'])
+                elif v is None and c.strip() != '' and not (c in ('',)):
+                    return 'cell %r of column %s was delivered as null' % (c, h)
         return None
     if k == 'missing':
         hs, target = case['headers'], case['target'] or 'missingValues'
